@@ -28,7 +28,7 @@ while args:
 sd = os.path.join(HERE, 'seeded')
 if not ids:
     ids = sorted(d for d in os.listdir(sd) if os.path.isdir(os.path.join(sd, d)))
-resf = os.path.join(sd, 'RESULTS.json')
+resf = os.environ.get('SEEDED_RESULTS') or os.path.join(sd, 'RESULTS.json')
 results = json.load(open(resf)) if os.path.exists(resf) else {}
 for mid in ids:
     meta = json.load(open(os.path.join(sd, mid, 'meta.json')))
